@@ -107,7 +107,8 @@ type ablk struct {
 	kind  string // h p tbl
 	level int
 	style string
-	cs    []ch // raw, not collapsed
+	jc    string // paragraph alignment (package reading only; not judged for paragraphs)
+	cs    []ch   // raw, not collapsed
 	rows  [][]acell
 }
 
